@@ -22,12 +22,14 @@ type Req struct {
 	Time      string         `json:"time"`
 	Name      string         `json:"name"` // label / tag / trace id path element
 	Result    sqlfake.Result `json:"result"`
-	CancelUs  int64          `json:"cancel_us"`         // >0: the client goes away after that long
-	WriteUs   int64          `json:"write_us"`          // delay of the client per response chunk
-	ThinkUs   int64          `json:"think_us"`          // before the request
-	NoDB      bool           `json:"no_db"`             // registry has no session for this request
-	TailMs    int64          `json:"tail_ms"`           // Tail: how long the consumer reads before closing
-	Mutated   bool           `json:"mutated,omitempty"` // the query text went through mutate(): it may be invalid
+	CancelUs  int64          `json:"cancel_us"`           // >0: the client goes away after that long
+	WriteUs   int64          `json:"write_us"`            // delay of the client per response chunk
+	ThinkUs   int64          `json:"think_us"`            // before the request
+	NoDB      bool           `json:"no_db"`               // registry has no session for this request
+	TailMs    int64          `json:"tail_ms"`             // Tail: how long the consumer reads before closing
+	Mutated   bool           `json:"mutated,omitempty"`   // the query text went through mutate(): it may be invalid
+	ProfType  int            `json:"prof_type,omitempty"` // index into ProfTypes (profile queries)
+	Faulty    bool           `json:"faulty,omitempty"`    // drawn with faults enabled: parameters, stored shapes and the database may be hostile
 }
 
 // Scenario of the reader simulation.
@@ -39,6 +41,9 @@ type Scenario struct {
 	SchedSeed uint64  `json:"sched_seed"`
 	Preempt   int64   `json:"preempt,omitempty"` // see simrt.SetPreempt
 }
+
+// ProfTypes are the profile type ids of the Pyroscope requests.
+var ProfTypes = []string{"process_cpu:cpu:nanoseconds:cpu:nanoseconds", "memory:alloc_space:bytes:space:bytes"}
 
 // URL renders the request.
 func (r Req) URL() (method, path string) {
@@ -150,7 +155,7 @@ func (r Req) URL() (method, path string) {
 	case "render_diff":
 		pq := r.Query
 		if strings.HasPrefix(pq, "{") {
-			pq = "process_cpu:cpu:nanoseconds:cpu:nanoseconds" + pq
+			pq = ProfTypes[r.ProfType%len(ProfTypes)] + pq
 		}
 		set("leftQuery", pq)
 		set("rightQuery", pq)
@@ -276,7 +281,7 @@ func genResult(rt *rapid.T, l string, faulty bool) sqlfake.Result {
 }
 
 func genReq(rt *rapid.T, l string, faulty bool) Req {
-	r := Req{Kind: rapid.SampledFrom(kinds).Draw(rt, l+".kind")}
+	r := Req{Kind: rapid.SampledFrom(kinds).Draw(rt, l+".kind"), Faulty: faulty}
 	hostileParams := faulty && rapid.IntRange(0, 3).Draw(rt, l+".hp") == 0
 	num := func(k string, def string) string {
 		if hostileParams {
@@ -311,7 +316,9 @@ func genReq(rt *rapid.T, l string, faulty bool) Req {
 		r.Query = genLogQL(rt, l+".q")
 		if (r.Kind == "render_diff" || strings.HasPrefix(r.Kind, "prof")) && rapid.IntRange(0, 3).Draw(rt, l+".profsel") != 0 {
 			// profile queries are a type id plus a stream selector
-			r.Query = rapid.SampledFrom([]string{`{service_name="x"}`, `{service_name="x", env=~"p.*"}`, `{}`, `{a!="b"}`}).Draw(rt, l+".profq")
+			r.Query = rapid.SampledFrom([]string{`{service_name="x"}`, `{service_name="x", env=~"p.*"}`, `{}`, `{a!="b"}`,
+				`{service_name="x", a="1", b="2", c="3", d="4", e="5", f="6", g="7", h="8", i="9"}`}).Draw(rt, l+".profq")
+			r.ProfType = rapid.IntRange(0, 1).Draw(rt, l+".proftype")
 		}
 		r.Start, r.End, r.Time = num("start", "946684800000000000"), num("end", "946684860000000000"), num("time", "946684860000000000")
 		r.Step = "5"
@@ -397,7 +404,10 @@ func GenScenario(faulty bool) func(rt *rapid.T) Scenario {
 			n := rapid.IntRange(1, 4).Draw(rt, fmt.Sprintf("c%d.n", c))
 			var reqs []Req
 			for i := 0; i < n; i++ {
-				reqs = append(reqs, genReq(rt, fmt.Sprintf("c%d.r%d", c, i), faulty))
+				// a fault-free scenario still has a request now and then that the database fails or the client abandons:
+				// the documents of the *other* requests are judged (what a failed request leaves behind must not reach them)
+				f := faulty || rapid.IntRange(0, 6).Draw(rt, fmt.Sprintf("c%d.r%d.faulty", c, i)) == 0
+				reqs = append(reqs, genReq(rt, fmt.Sprintf("c%d.r%d", c, i), f))
 			}
 			s.Clients = append(s.Clients, reqs)
 		}
